@@ -34,7 +34,8 @@ def main():
         for p in props:
             if p.startswith("--"):
                 continue
-            r = subprocess.run([os.path.join(V, "check"), p, "--root", root, "--tier", os.environ.get("TIER", "quick")], capture_output=True, text=True)
+            r = subprocess.run([os.path.join(V, "check"), p, "--root", root, "--tier", os.environ.get("TIER", "quick")], capture_output=True, text=True,
+                               env=dict(os.environ, SA_EVIDENCE_DIR=os.path.join(tmp, "evidence")))
             lines = [l for l in r.stdout.splitlines() if l.startswith("  C") or l.startswith("ANALYSIS-ERROR")]
             print("check %s rc=%d" % (p, r.returncode))
             for l in lines[:6]:
